@@ -5,6 +5,8 @@ Property theorems only; proofs in TddaVerif/Lemmas/Rexpy*.lean.
 import TddaVerif.Model.Rexpy
 import TddaVerif.Props.C03Spec
 import TddaVerif.Lemmas.RexpySound
+import TddaVerif.Model.RexpySampled
+import TddaVerif.Lemmas.RexpySampled
 import TddaVerif.Generated.Rexpy
 
 namespace TddaVerif.Props.C03
@@ -47,6 +49,36 @@ theorem extract_sound (T : CharTable) (hT : Consistent T) (o : Opts)
     ∃ ps E w, extract T o items = some (ps, E, w) ∧
       ∀ s ∈ keptExamples o items, ∃ p ∈ ps, Matches T E (wrapWs w p) s :=
   Lemmas.extract_sound T hT o hsz hprune items
+
+/-! ### with sampling (Size settings below the number of distinct examples)
+
+`extractSampled` models Extractor.__init__ / extract with the first sample, the loop and the pruning;
+`random.sample` is the parameter `pick`. -/
+
+abbrev PickOK := @SampledLemmas.PickOK
+
+/-- **soundness under sampling**: for every Size setting and whatever `random.sample` returns (as long as it returns
+    elements of the list it is given, and at least one when asked for at least one of a non-empty list), every
+    example that is not discarded is matched by one of the expressions returned -/
+theorem extract_sampled_sound (T : CharTable) (hT : Consistent T) (o : Opts)
+    (hsz : 1 ≤ o.sizes.maxStringsInGroup) (cfg : SampleCfg) (pick : Pick)
+    (hp : PickOK pick) (hprune : o.maxPatterns = none ∧ o.minStrings ≤ 1) (items : List (Option Line × Nat))
+    (ps : List Pattern) (E : List Char) (w : Bool) (h : extractSampled T o cfg pick items = some (ps, E, w)) :
+    ∀ s ∈ keptExamples o items, ∃ p ∈ ps, Matches T E (wrapWs w p) s :=
+  SampledLemmas.extractSampled_sound T hT o hsz cfg pick hp hprune items ps E w h
+
+/-- the loop always ends (within the fuel the model gives it) and returns a result, for any sampler at all -/
+theorem extract_sampled_terminates (T : CharTable) (hT : Consistent T) (o : Opts)
+    (cfg : SampleCfg) (pick : Pick) (items : List (Option Line × Nat)) :
+    ∃ r, extractSampled T o cfg pick items = some r :=
+  SampledLemmas.extractSampled_terminates T hT o cfg pick items
+
+/-- with no more distinct examples than Size.do_all nothing is sampled: the result is the batch result -/
+theorem extract_sampled_eq_batch (T : CharTable) (hT : Consistent T) (o : Opts) (hsz : 1 ≤ o.sizes.maxStringsInGroup)
+    (cfg : SampleCfg) (pick : Pick) (items : List (Option Line × Nat))
+    (hsmall : (clean o.stripOpt o.removeEmpties items).strings.length ≤ cfg.doAll) :
+    extractSampled T o cfg pick items = extract T o items :=
+  SampledLemmas.extractSampled_eq_extract T hT o hsz cfg pick items hsmall
 
 /-- **Tie**: the constants the model hard-codes are the ones in the source today
     (Generated/Rexpy.lean is rewritten from tdda/rexpy/rexpy.py on every run) -/
